@@ -2,7 +2,7 @@
    dispatch takes one command line (bytes) and returns one result line (bytes); the
    OCaml driver only converts between OCaml strings and byte lists. *)
 From Coq Require Import String.
-From MdIt Require Import Prims Mdurl SourceMap.
+From MdIt Require Import Prims Tables Mdurl SourceMap Ruler Escape NormRef Indent HtmlRe Tree Render Core Dump.
 Local Open Scope string_scope.
 Local Open Scope list_scope.
 Local Open Scope N_scope.
@@ -19,6 +19,100 @@ Definition cmd_enc (a : list str) : str :=
   | _ => bs "error args"
   end.
 
+Definition panic_name (k : panic_kind) : str :=
+  match k with
+  | IndexOOB => bs "IndexOOB" | SliceErr => bs "Slice" | UnwrapNone => bs "UnwrapNone"
+  | Overflow => bs "Overflow" | AssertFail => bs "Assert" | Cyclic => bs "Cyclic"
+  | Missing => bs "Missing" | Unimplemented => bs "Unimplemented" | Borrow => bs "Borrow"
+  end.
+Definition err_name (e : err) : str :=
+  match e with Panic k => panic_name k | Hang => bs "HANG" | OutOfFuel => bs "FUEL" end.
+
+(* ---- ruler script ---- *)
+Definition tl_str (s : str) : str := match s with [] => [] | _ :: t => t end.
+Definition num (s : str) : N := parse_dec s 0.
+
+Definition ruler_mod (r : ruler) (m : str) : ruler :=
+  match m with
+  | 98 :: v => r_before (num v) r      (* b *)
+  | 102 :: v => r_after (num v) r      (* f *)
+  | 108 :: v => r_alias (num v) r      (* l *)
+  | 113 :: v => r_require (num v) r    (* q *)
+  | 66 :: _ => r_before_all r          (* B *)
+  | 65 :: _ => r_after_all r           (* A *)
+  | _ => r
+  end.
+
+Definition ruler_op (st : ruler * list str) (op : str) : ruler * list str :=
+  let '(r, out) := st in
+  match op with
+  | 97 :: rest =>                      (* a<mark>,<val>[:mod]* *)
+    match split 58 rest with
+    | head :: mods =>
+      match split 44 head with
+      | [mk; vl] => (fold_left ruler_mod mods (r_add r (num mk) (num vl)), out)
+      | _ => st
+      end
+    | [] => st
+    end
+  | 114 :: v => (r_remove r (num v), out)                                   (* r *)
+  | 99 :: v => (r, out ++ [bs "c" ++ (if r_contains r (num v) then bs "1" else bs "0")])   (* c *)
+  | 105 :: _ =>                                                            (* i *)
+    let '(r', x) := r_iter r in
+    (r', out ++ [match x with
+                 | inr vs => bs "i[" ++ join (bs ",") (map dec vs) ++ bs "]"
+                 | inl e => bs "iP" ++ err_name e
+                 end])
+  | 100 :: _ =>                                                            (* d *)
+    let '(r', x) := r_debug r in
+    (r', out ++ [match x with
+                 | inr ps => bs "d[" ++ join (bs ",") (map (fun p => bs "(" ++ dec (N.of_nat (fst p)) ++ bs "," ++ dec (snd p) ++ bs ")") ps) ++ bs "]"
+                 | inl e => bs "dP" ++ err_name e
+                 end])
+  | _ => st
+  end.
+
+Definition cmd_ruler (a : list str) : str :=
+  match a with
+  | [script] => bs "ok " ++ join (bs ";") (snd (fold_left ruler_op (split 59 script) (ruler_new, [])))
+  | _ => bs "error args"
+  end.
+
+(* parse <cfg> <nest> <flags> <src hex> *)
+Definition build_md (cfg : str) (nest : N) : md :=
+  add_plugins (with_maxnest md_new nest) (filter (fun c => negb (c =? 45)) cfg).
+
+Definition cmd_parse (a : list str) : str :=
+  match a with
+  | [cfg; nest; flags; src] =>
+    let m := build_md cfg (num nest) in
+    snd (parse_report (default_fuel m) m (arg_hex src) flags)
+  | _ => bs "error args"
+  end.
+
+(* hist <nest> <flags> <script> *)
+Definition hist_op (flags : str) (st : md * list str) (op : str) : md * list str :=
+  let '(m, out) := st in
+  match op with
+  | 43 :: rest => (add_plugins m rest, out)                                  (* + *)
+  | 45 :: rest => (fold_left remove_plugin_rule rest m, out)                 (* - *)
+  | 63 :: rest => (m, out ++ [bs "?" ++ flat_map (fun c => b01 (has_plugin_rule m c)) rest])   (* ? *)
+  | 80 :: rest =>                                                           (* P *)
+    let '(m', r) := parse_report (default_fuel m) m (arg_hex rest) flags in
+    (m', out ++ [bs "P[" ++ r ++ bs "]"])
+  | 68 :: _ =>                                                              (* D *)
+    let x := do _ <- snd (r_debug (md_core m)); do _ <- snd (r_debug (md_block m)); snd (r_debug (md_inline m)) in
+    (m, out ++ [match x with inr _ => bs "D[ok true]" | inl e => bs "D[panic " ++ err_name e ++ bs "]" end])
+  | _ => st
+  end.
+
+Definition cmd_hist (a : list str) : str :=
+  match a with
+  | [nest; flags; script] =>
+    bs "ok " ++ join (bs ";") (snd (fold_left (hist_op flags) (split 59 script) (with_maxnest md_new (num nest), [])))
+  | _ => bs "error args"
+  end.
+
 Definition dispatch (line : str) : str :=
   match split 32 line with
   | cmd :: a =>
@@ -30,6 +124,28 @@ Definition dispatch (line : str) : str :=
       | [s; st; en] => bs "ok " ++ fmt_sourcepos (get_positions (arg_hex s) (parse_dec st 0) (parse_dec en 0))
       | _ => bs "error args"
       end
+    else if list_eqb cmd (bs "ruler") then cmd_ruler a
+    else if list_eqb cmd (bs "parse") then cmd_parse a
+    else if list_eqb cmd (bs "hist") then cmd_hist a
+    else if list_eqb cmd (bs "valid") then
+      match a with [s] => bs "ok " ++ b01 (validate_link (arg_hex s)) | _ => bs "error args" end
+    else if list_eqb cmd (bs "esc") then
+      match a with [s] => bs "ok " ++ hexs (escape_html (arg_hex s)) | _ => bs "error args" end
+    else if list_eqb cmd (bs "unesc") then
+      match a with [s] => bs "ok " ++ hexs (unescape_all (arg_hex s)) | _ => bs "error args" end
+    else if list_eqb cmd (bs "entcode") then
+      match a with [s] => bs "ok " ++ b01 (is_valid_entity_code (num s)) | _ => bs "error args" end
+    else if list_eqb cmd (bs "ent") then
+      match a with [s] => bs "ok " ++ (match get_entity_from_str (arg_hex s) with Some v => hexs v | None => bs "none" end)
+                  | _ => bs "error args" end
+    else if list_eqb cmd (bs "normref") then
+      match a with [s] => bs "ok " ++ hexs (normalize_reference (arg_hex s)) | _ => bs "error args" end
+    else if list_eqb cmd (bs "indent") then
+      match a with
+      | [s; p] => let '(i, q) := find_indent_of (arg_hex s) (num p) in bs "ok " ++ dec i ++ bs " " ++ dec q
+      | _ => bs "error args" end
+    else if list_eqb cmd (bs "rfind") then
+      match a with [s; c] => bs "ok " ++ dec (rfind_and_count (arg_hex s) (num c)) | _ => bs "error args" end
     else if list_eqb cmd (bs "ping") then bs "ok pong"
     else bs "error unknown-command"
   | [] => bs "error empty"
